@@ -67,7 +67,10 @@ TdLike(ev) == ev.t = "destroyed" \/ ev.v.phase = "tearingDown"
 NewCall(e) ==
   [c |-> [h |-> e.h, tok |-> e.tok, fin |-> e.fin, owner |-> e.owner, exp |-> e.exp, cond |-> e.cond],
    nw |-> 0, lastWrite |-> Absent, lastGet |-> Absent, gotAny |-> FALSE, getInc |-> 0,
-   sawConf |-> FALSE, destroys0 |-> ndestroy, watching |-> FALSE, seq |-> <<>>]
+   sawConf |-> FALSE, destroys0 |-> ndestroy, watching |-> FALSE, seq |-> <<>>,
+   (* TeardownAndDestroy: tdEff = the tearing-down phase of this call has taken effect (it wrote it, or read it);         *)
+   (* emptyAfter = since then the resource has been seen with an empty finalizer set (or gone) at some commit             *)
+   tdEff |-> FALSE, emptyAfter |-> FALSE]
 
 Init == /\ store = Absent /\ inc = 0 /\ ndestroy = 0 /\ calls = Empty /\ ctxs = Empty
         /\ l = 1 /\ tid = "" /\ bad = FALSE
@@ -81,7 +84,10 @@ Reject(what, exp, got) ==
 Keep == UNCHANGED <<tid, bad>>
 
 (* a committed change: every watch in progress sees it *)
-Observe(cs, ev) == [a \in DOMAIN cs |-> IF cs[a].watching THEN [cs[a] EXCEPT !.seq = Append(@, ev)] ELSE cs[a]]
+Observe(cs, ev) ==
+  [a \in DOMAIN cs |->
+     LET c1 == IF cs[a].watching THEN [cs[a] EXCEPT !.seq = Append(@, ev)] ELSE cs[a]
+     IN IF c1.tdEff /\ (ev.t = "destroyed" \/ ev.v.fins = {}) THEN [c1 EXCEPT !.emptyAfter = TRUE] ELSE c1]
 ObserveCtx(cx, ev) == [a \in DOMAIN cx |-> [cx[a] EXCEPT !.obs = @ \/ TdLike(ev)]]
 
 Call(e) ==
@@ -100,7 +106,9 @@ Op(e) ==
          IF e.cls = "ok" /\ v # store THEN Reject("stale-read", store, v)
          ELSE IF e.cls = "notfound" /\ store.ver # 0 THEN Reject("stale-read", store, "notfound")
          ELSE /\ calls' = [calls EXCEPT ![e.a].lastGet = IF e.cls = "ok" THEN v ELSE Absent,
-                                        ![e.a].gotAny = TRUE, ![e.a].getInc = inc]
+                                        ![e.a].gotAny = TRUE, ![e.a].getInc = inc,
+                                        ![e.a].tdEff = @ \/ (r.c.h = "tad" /\ e.cls = "ok" /\ v.phase = "tearingDown"),
+                                        ![e.a].emptyAfter = @ \/ (r.c.h = "tad" /\ e.cls = "ok" /\ v.phase = "tearingDown" /\ v.fins = {})]
               /\ UNCHANGED <<store, inc, ndestroy, ctxs>> /\ Keep
     [] e.op = "update" ->
          IF e.cls # "ok"
@@ -111,7 +119,9 @@ Op(e) ==
               THEN IF Strip(v) # Strip(Mut(r.c, store))
                    THEN Reject(HowOff(Mut(r.c, store), v, r.getInc # inc), Mut(r.c, store), v)
                    ELSE /\ store' = v
-                        /\ calls' = Observe([calls EXCEPT ![e.a].nw = @ + 1, ![e.a].lastWrite = v], [t |-> "updated", v |-> v])
+                        /\ calls' = Observe([calls EXCEPT ![e.a].nw = @ + 1, ![e.a].lastWrite = v,
+                                                           ![e.a].tdEff = @ \/ (r.c.h = "tad" /\ v.phase = "tearingDown")],
+                                             [t |-> "updated", v |-> v])
                         /\ ctxs' = ObserveCtx(ctxs, [t |-> "updated", v |-> v])
                         /\ UNCHANGED <<inc, ndestroy>> /\ Keep
               ELSE Reject("unexpected-update", r.c.h, v)
@@ -165,6 +175,11 @@ Ret(e) ==
   ELSE IF c.h = "teardown" /\ ok /\ e.ready /\ (IF r.nw = 1 THEN r.lastWrite ELSE r.lastGet).fins # {}
        THEN Reject("ready-with-finalizers", {}, (IF r.nw = 1 THEN r.lastWrite ELSE r.lastGet).fins)
   ELSE IF c.h = "tad" /\ ok /\ ndestroy = r.destroys0 THEN Reject("tad-success-not-gone", "a destroy during the call", store)
+  (* TeardownAndDestroy waits for the finalizers to go: it may give up with the pending-finalizers conflict only if, after its *)
+  (* teardown took effect, the resource HAS been without finalizers (and somebody put one back before its Destroy): giving up   *)
+  (* on a state from before the teardown is a jump                                                                             *)
+  ELSE IF c.h = "tad" /\ e.cls = "conflict" /\ r.tdEff /\ ~r.emptyAfter
+       THEN Reject("tad-gave-up-on-stale-state", "finalizers seen empty after the teardown took effect", store)
   ELSE IF c.h = "watchfor" /\ ok /\
           (LET i == FirstMatch(c.cond, r.seq) IN i = 0 \/ r.seq[i].v # v)
        THEN Reject("watchfor-not-first-match", [seq |-> r.seq, cond |-> c.cond], v)
